@@ -2,5 +2,5 @@ SPECIFICATION Spec
 CONSTANTS
   MaxStr = 3
   Deep = TRUE
-INVARIANTS RefRoundTrip OrderMatters TypeMatters LeafMatters Eq11Refl EncoderAudit ReaderAudit
+INVARIANTS RefRoundTrip ReservedCollides OrderMatters TypeMatters LeafMatters Eq11Refl EncoderAudit ReaderAudit
 CHECK_DEADLOCK FALSE
